@@ -253,6 +253,27 @@ fn gen(g: &mut G, thorough: bool) -> Plan {
                     bound = Some((17, (mh + 2) * 16, "header-fields-without-end"));
                     ("endless-header-fields", w)
                 }
+                3 if g.chance(1, 3) => {
+                    // after the last chunk: lines without end where the final CRLF should be (well-formed trailer
+                    // fields, lines whose name is not a token, lines without a colon).  A client that knows no
+                    // trailers refuses at once; one that reads them must count every line
+                    let mut w = b"HTTP/1.1 200 OK\r\nTransfer-Encoding: chunked\r\n\r\n5\r\nhello\r\n0\r\n".to_vec();
+                    let start = w.len();
+                    let style = g.below(3);
+                    let mut i = 0usize;
+                    while w.len() < total {
+                        match style {
+                            0 => w.extend_from_slice(format!("X-T{}: v\r\n", i % 1000).as_bytes()),
+                            1 => w.extend_from_slice(if i % 2 == 0 { &b"@: x\r\n"[..] } else { &b"bad name: v\r\n"[..] }),
+                            _ => w.extend_from_slice(b"no colon here\r\n"),
+                        }
+                        i += 1;
+                    }
+                    // generous: a hundred-odd short lines, or one line limit, whichever a trailer reader applies
+                    bound = Some((start, 102 * 16 + 16 * 1024, "chunk-trailer-lines-without-end"));
+                    g.probe("endless-lines-after-the-last-chunk");
+                    ("endless-trailer-lines", w)
+                }
                 3 => {
                     let head = b"HTTP/1.1 200 OK\r\nTransfer-Encoding: chunked\r\n\r\n".to_vec();
                     let start = head.len();
@@ -336,7 +357,7 @@ fn gen(g: &mut G, thorough: bool) -> Plan {
     }
     let via_connect = match kind {
         "endless-refusal-body" => true,
-        "endless-chunk-size-line" | "gzip-bomb" | "alphabet-chunked-body" | "endless-data-after-coded-stream" => false,
+        "endless-chunk-size-line" | "endless-trailer-lines" | "gzip-bomb" | "alphabet-chunked-body" | "endless-data-after-coded-stream" => false,
         _ => g.chance(1, 4),
     };
     if via_connect {
